@@ -25,6 +25,8 @@ use std::sync::atomic::{AtomicI64, Ordering};
 /// operation storages currently alive in the driver (hook events; one case at a time per process)
 static LIVE_OPS: AtomicI64 = AtomicI64::new(0);
 static HOOKS: std::sync::Mutex<Vec<Event>> = std::sync::Mutex::new(Vec::new());
+/// positions in HOOKS at which a zero-copy send handed its buffer back
+static ZC_RETURNS: std::sync::Mutex<Vec<usize>> = std::sync::Mutex::new(Vec::new());
 
 fn sink(e: Event) {
     HOOKS.lock().unwrap_or_else(|p| p.into_inner()).push(e);
@@ -63,6 +65,8 @@ pub enum What {
     Accept,
     /// `spawn_blocking` of a job that waits for the lab's gate (thread-pool operation)
     Blocking,
+    /// `write_zerocopy` on the TCP connection, then await the buffer-ready future
+    SendZc,
 }
 
 #[derive(Debug, Clone, Serialize, Deserialize)]
@@ -242,6 +246,7 @@ impl Lab {
         let personality = self.personality;
         let end = self.ends[mono_ix(spec.stream, 3)].clone();
         let listener = self.listener.clone();
+        let tcp = self.ends[2].clone();
         let gate = self.gate.clone();
         let fut = async move {
             // the operation itself, as a boxed future producing an `Out`
@@ -265,6 +270,21 @@ impl Lab {
                         Err(e) if e.is_cancelled() => Out::Cancelled,
                         Err(e) => Out::Failed(format!("{:?}", e.kind())),
                     },
+                    What::SendZc => {
+                        use compio_io::AsyncWriteZerocopy;
+                        let data: Vec<u8> = (0..cap).map(|j| pattern(9, j)).collect();
+                        let OpEnd::Tcp(s) = &*tcp else { unreachable!() };
+                        let mut s: &compio_net::TcpStream = s;
+                        let BufResult(r, ready) = s.write_zerocopy(data).await;
+                        let back = ready.await;
+                        let at = HOOKS.lock().unwrap_or_else(|p| p.into_inner()).len();
+                        ZC_RETURNS.lock().unwrap_or_else(|p| p.into_inner()).push(at);
+                        match r {
+                            Ok(n) if n <= back.len() => Out::Eof,
+                            Ok(_) => Out::Failed("zero-copy count".into()),
+                            Err(e) => Out::Failed(format!("{:?}", e.kind())),
+                        }
+                    }
                     What::Blocking => {
                         let g = gate.clone();
                         let r = compio_runtime::spawn_blocking(move || {
@@ -697,6 +717,7 @@ fn check_hook_lifetimes(ev: &[Event], drv: &str) -> Result<(), Outcome> {
 fn run_c01(case: &RtCase) -> Outcome {
     LIVE_OPS.store(0, Ordering::SeqCst);
     HOOKS.lock().unwrap_or_else(|p| p.into_inner()).clear();
+    ZC_RETURNS.lock().unwrap_or_else(|p| p.into_inner()).clear();
     let mut lab = match build(case) {
         Ok(l) => l,
         Err(e) => return Outcome::inconclusive(format!("setup: {e}")),
@@ -806,6 +827,22 @@ fn run_c01(case: &RtCase) -> Outcome {
     if let Err(o) = check_hook_lifetimes(&ev, drv) {
         return o;
     }
+    // zero-copy: the k-th buffer handed back needs k release notifications (F_NOTIF) before it
+    if case.iour {
+        let rets = ZC_RETURNS.lock().unwrap_or_else(|p| p.into_inner()).clone();
+        for (k, at) in rets.iter().enumerate() {
+            let notifs = ev[..(*at).min(ev.len())].iter().filter(|e| matches!(e, Event::Cqe { flags, .. } if flags & 8 != 0)).count();
+            if notifs < k + 1 {
+                return Outcome::violation(
+                    format!("C01/rt/zerocopy-buffer-before-notif/{drv}"),
+                    format!("zero-copy send #{k} handed its buffer back after only {notifs} release notifications from the kernel"),
+                );
+            }
+        }
+        if !rets.is_empty() {
+            labels.push("zerocopy-returned".into());
+        }
+    }
     labels.sort();
     labels.dedup();
     Outcome::pass_owned(nontrivial, labels)
@@ -813,7 +850,7 @@ fn run_c01(case: &RtCase) -> Outcome {
 
 fn strategy_c01() -> impl Strategy<Value = RtCase> + Clone {
     let route = prop_oneof![3 => Just(Route::Plain), 3 => (0u8..2).prop_map(Route::Token), 1 => any::<u8>().prop_map(Route::TimeoutMs), 3 => (0u8..2).prop_map(Route::DropOn)];
-    let task = (prop_oneof![5 => Just(What::Read), 2 => Just(What::Accept), 2 => Just(What::Blocking)], any::<u16>(), any::<u16>(), route, 0u8..3).prop_map(|(what, stream, cap, route, pers)| TaskSpec { what, stream, cap, route, pers });
+    let task = (prop_oneof![5 => Just(What::Read), 2 => Just(What::Accept), 2 => Just(What::Blocking), 2 => Just(What::SendZc)], any::<u16>(), any::<u16>(), route, 0u8..3).prop_map(|(what, stream, cap, route, pers)| TaskSpec { what, stream, cap, route, pers });
     let step = prop_oneof![
         6 => Just(RStep::Spawn),
         3 => (any::<u16>(), any::<u16>()).prop_map(|(stream, n)| RStep::Feed { stream, n }),
